@@ -644,7 +644,8 @@ class CallMixin:
                 return [(s, obj if s.status == "run" else None) for s, _ in
                         self.apply_contract(self.need_contract(key, node), [obj] + list(args), kwargs, st, node)]
             new = self.repo.attr(cls, "__new__")
-            if new is not None and f"{new[0]['owner']}.__new__" in self.contracts and self.contracts[f"{new[0]['owner']}.__new__"].props != ["transparent"]:
+            if new is not None and new[0]["owner"] == cls and f"{cls}.__new__" in self.contracts:
+                # the class's own __new__ is a dispatcher under contract (Opcode(info=...)); subclasses go through __init__
                 return self.apply_contract(self.contracts[f"{new[0]['owner']}.__new__"],
                                            [V("cls", z3.IntVal(static_ref('class:' + cls)), cls=cls)] + list(args), kwargs, st, node)
             r = st.alloc(cls)
